@@ -29,8 +29,22 @@ LEVEL_NOTE = ('"status change" for the audit clauses is the state (hopeful/elect
 GUARDS = {'all': {'elect+defeat+transfer': 0.2}}
 
 
+@st.composite
+def cases(draw, tier):
+    d = D(draw)
+    if d.p(3):
+        # tallies a few thousandths apart and a candidate excluded with a sliver of a vote, at a coarse guarded precision:
+        # figures that are "zero" by the arithmetic's comparison and not zero in the record
+        case = gen.near_tie_case(d)
+        case['options'] = {'arithmetic': 'guarded', 'precision': d.int(1, 3), 'guard': d.int(1, 4)}
+        if d.p(30):
+            case['options']['display'] = case['options']['precision'] + d.int(0, 4)
+        return case
+    return draw(gen.election_cases(tier=tier, equal_for_meek=True))
+
+
 def strategy(tier):
-    return gen.election_cases(tier=tier, equal_for_meek=True)
+    return cases(tier)
 
 
 def fig(ar, x):
